@@ -68,7 +68,10 @@ def headers_x(ck, g, tier):
             tps[-1]["default"] = "u8"
         const = g.chance(0.2)
         const_default = const and (g.chance(0.4) or any(t["default"] for t in tps))
-        decl = list(lts) + [t["name"] + (": " + t["bound"] if t["bound"] else "") + (" = " + t["default"] if t["default"] else "") for t in tps] + (["const N: usize" + (" = 3" if const_default else "")] if const else [])
+        lt_decl = list(lts)
+        if len(lts) == 2 and g.chance(0.5):
+            lt_decl[1] = "'b: 'a"        # a lifetime parameter declared with a bound is still one of the type's lifetimes
+        decl = lt_decl + [t["name"] + (": " + t["bound"] if t["bound"] else "") + (" = " + t["default"] if t["default"] else "") for t in tps] + (["const N: usize" + (" = 3" if const_default else "")] if const else [])
         names = list(lts) + [t["name"] for t in tps] + (["N"] if const else [])
         own_where = []
         if tps and g.chance(0.4):
